@@ -39,6 +39,7 @@ pub fn probes(_tier: &str) -> Vec<String> {
     "probe.unpack_for_same_did",
     "probe.first_publish_rebases_placeholder",
     "probe.foreign_method",
+    "probe.method_controller_differs_from_id_did",
     "probe.also_known_as_mentions_self",
     "probe.oversize_pack_refused",
     "probe.near_limit_pack_ok",
@@ -53,6 +54,18 @@ fn foreign_method(did: &str, frag: &str) -> VerificationMethod {
   let jwk: identity_jose::jwk::Jwk =
     serde_json::from_value(serde_json::json!({"kty":"OKP","crv":"Ed25519","alg":"EdDSA","x": x})).unwrap();
   VerificationMethod::new_from_jwk(CoreDID::parse(did).unwrap(), jwk, Some(frag)).unwrap()
+}
+
+/// A method whose id and controller belong to different DIDs (one of them may be the document's own DID).
+fn mixed_method(id_did: &str, controller_did: &str, frag: &str) -> Option<VerificationMethod> {
+  let x = crate::engines::ks::b64(&ctx::bytes(32));
+  VerificationMethod::from_json_value(serde_json::json!({
+    "id": format!("{id_did}#{frag}"),
+    "controller": controller_did,
+    "type": "JsonWebKey2020",
+    "publicKeyJwk": {"kty":"OKP","crv":"Ed25519","alg":"EdDSA","x": x}
+  }))
+  .ok()
 }
 
 const RELATIONSHIPS: [MethodRelationship; 5] = [
@@ -75,7 +88,21 @@ fn mutate(p: &mut Party, foreign_dids: &[String], round: usize) {
   let n = 1 + ctx::choose(6);
   for i in 0..n {
     let own = p.did.clone();
-    match ctx::choose(9) {
+    match ctx::choose(10) {
+      9 => {
+        // id and controller under different DIDs: foreign id controlled by this document, or own id controlled elsewhere
+        let other = &foreign_dids[ctx::choose(foreign_dids.len())];
+        let m = if ctx::choose(2) == 0 {
+          mixed_method(other, &own, &format!("m{round}x{i}"))
+        } else {
+          mixed_method(&own, other, &format!("m{round}x{i}"))
+        };
+        if let (AnyDoc::Iota(doc), Some(m)) = (&mut p.doc, m) {
+          if doc.insert_method(m, draw_scope()).is_ok() {
+            ctx::stat("probe.method_controller_differs_from_id_did");
+          }
+        }
+      }
       0 | 1 => {
         let scope = if ctx::choose(2) == 0 { None } else { Some(ctx::choose(5)) };
         let _ = p.gen_method(&format!("k{round}x{i}"), scope);
@@ -418,7 +445,11 @@ pub fn run(_params: &Params) {
         .unwrap()
       };
       // exact sizes around the 16-bit boundary: 65535-k packs, 65536+k does not
-      let target: usize = if over { 65_536 + ctx::choose(2000) } else { 65_535 - ctx::choose(3) };
+      let target: usize = if over {
+        65_536 + [0usize, 0, 1, 2][ctx::choose(4)] + if ctx::choose(4) == 0 { ctx::choose(2000) } else { 0 }
+      } else {
+        65_535 - ctx::choose(3)
+      };
       // grow with services; the size added by each is measured, not assumed
       loop {
         let cur = size_of(&big);
